@@ -44,5 +44,16 @@ Theorem model_is_skeleton : forall l, G.driver (map to_gen l) = (res_to_gen (fst
 Proof. exact gen_driver_eq. Qed.
 Print Assumptions model_is_skeleton.
 
+(* a task that raises SystemExit / KeyboardInterrupt (outcome Exited) is reported as a RuntimeError:
+   the only exceptions the wait re-raises unchanged are Exceptions, so the driving command can never
+   end as a normal exit because of what a task raised (F14) *)
+Theorem task_exit_is_an_error : forall pre post, Forall (fun x => x = G.Done) pre ->
+  G.driver (pre ++ G.Exited :: post) = (G.ErrRuntime, false).
+Proof.
+  intros pre post H. unfold G.driver, G.pwm_exit.
+  rewrite (first_failure_decides_lemma pre G.Exited post H) by discriminate. reflexivity.
+Qed.
+Print Assumptions task_exit_is_an_error.
+
 Example c14_instance : G.driver [G.Done; G.Broken; G.Raised 3] = (G.ErrRuntime, false) /\ G.driver [G.Done; G.Done] = (G.Ok, true).
 Proof. split; reflexivity. Qed.
